@@ -286,8 +286,8 @@ B("threadedwriter-put-nowait", ["*"], [("logwriter.py", "        self._queue.put
 M("success-fields-class-level", ["C03", "C02"], "_action.py", "        self._successFields = {}\n        self._logger =", "        self._logger =", "")
 M("message-aliases-contents", ["C13"], "_message.py", "        self._contents = contents.copy()", "        self._contents = contents", "C13.copy")
 M("message-bind-mutates", ["C13"], "_message.py", "        contents = self._contents.copy()\n        contents.update(fields)", "        contents = self._contents\n        contents.update(fields)", "C13.copy")
-M("timestamp-default-argument", ["C02"], "_action.py", "    def log(self, message_type, **fields):\n        \"\"\"Log individual message.\"\"\"\n        fields[TIMESTAMP_FIELD] = time.time()",
-  "    def log(self, message_type, _now=time.time(), **fields):\n        \"\"\"Log individual message.\"\"\"\n        fields[TIMESTAMP_FIELD] = _now", "C02")
+M("timestamp-default-argument", ["C02"], "_action.py", "    def log(self, /, message_type, **fields):\n        \"\"\"Log individual message.\"\"\"\n        fields[TIMESTAMP_FIELD] = time.time()",
+  "    def log(self, /, message_type, _now=time.time(), **fields):\n        \"\"\"Log individual message.\"\"\"\n        fields[TIMESTAMP_FIELD] = _now", "C02")
 M("buffer-list-class-level", ["C12"], "_output.py", "    def __init__(self):\n        self.messages = []\n\n    def __call__(self, message):", "    messages = []\n\n    def __call__(self, message):", "C12")
 M("memorylogger-lists-not-reset", ["C16"], "_output.py", "        self.messages = []\n        self.serializers = []\n        self.tracebackMessages = []\n        self._failed_validations = []",
   "        self.messages = []\n        self.serializers = self.messages\n        self.tracebackMessages = []\n        self._failed_validations = []", "C16")
@@ -300,5 +300,26 @@ M("generator-state-hoisted", ["C15"], "_generators.py",
   "    @wraps(original)\n    def wrapper(*a, **kw):\n        # Keep track of whether the next value to deliver to the generator is\n        # a non-exception or an exception.\n        ok = True\n\n        # Keep track of the next value to deliver to the generator.\n        value_in = None\n",
   "    ok = True\n    value_in = None\n\n    @wraps(original)\n    def wrapper(*a, **kw):\n        nonlocal ok, value_in\n", "C15.ctx")
 M("send-errors-on-self", ["C08"], "_output.py", "        errors = []\n", "        errors = self._errors = getattr(self, '_errors', [])\n", "C08.report")
+
+# --- fifth batch (after seeding round 4)
+M("action-log-self-by-keyword", ["C07"], "_action.py", "    def log(self, /, message_type, **fields):", "    def log(self, message_type, **fields):", "C07.splat")
+M("message-bind-self-by-keyword", ["C07"], "_message.py", "    def bind(self, /, **fields):", "    def bind(self, **fields):", "C07.splat")
+M("traceback-through-typed-log", ["C07"], "_traceback.py",
+  "    msg = TRACEBACK_MESSAGE(reason=exception, traceback=traceback, exception=typ)\n    if extract_fields:\n        msg = msg.bind(**_error_extraction.get_fields_for_exception(logger, exception))\n    msg.write(logger)",
+  "    fields = {\"reason\": exception, \"traceback\": traceback, \"exception\": typ}\n    if extract_fields:\n        fields.update(_error_extraction.get_fields_for_exception(logger, exception))\n    if logger is not None:\n        fields[\"__eliot_logger__\"] = logger\n    TRACEBACK_MESSAGE.log(**fields)", "C07.splat")
+M("incomplete-tasks-sorted-by-start-time", ["C09", "C01", "C11"], "parse.py", "        return list(self._tasks.values())", "        return sorted(self._tasks.values(), key=lambda task: task.root().start_time)", ".total")
+B("incomplete-tasks-sorted-by-level", ["*"], [("parse.py", "        return list(self._tasks.values())", "        return sorted(self._tasks.values(), key=lambda task: task.root().task_level)")])
+B("children-sorted-by-level-list", ["*"], [("_action.py", "sorted(self._children.values(), key=lambda m: m.task_level)", "sorted(self._children.values(), key=lambda m: m.task_level.as_list())")])
+M("buffer-deque", ["C12"], "_output.py", "        self.messages = []\n\n    def __call__(self, message):\n        self.messages.append(message)\n        while len(self.messages) > 1000:\n            self.messages.pop(0)",
+  "        self.messages = __import__('collections').deque(maxlen=1000)\n\n    def __call__(self, message):\n        self.messages.append(message)", "C12.buffer")
+M("timestamp-split-by-hand", ["C20"], "prettyprint.py", "        dt = datetime.utcfromtimestamp(message[TIMESTAMP_FIELD])",
+  "        whole, frac = divmod(message[TIMESTAMP_FIELD], 1)\n        dt = datetime.utcfromtimestamp(int(whole)).replace(microsecond=round(frac * 1000000))", "C20.complete")
+B("timestamp-aware-utc", ["*"], [("prettyprint.py", "        dt = datetime.utcfromtimestamp(message[TIMESTAMP_FIELD])",
+  "        dt = datetime.fromtimestamp(message[TIMESTAMP_FIELD], __import__('datetime').timezone.utc).replace(tzinfo=None)")])
+V.append({"id": "threadedwriter-default-queue", "kind": "mutant", "props": ["C19"], "expect": "C19.queue", "edits": [
+    ("logwriter.py", "    def __init__(self, destination, reactor):", "    def __init__(self, destination, reactor, queue=SimpleQueue()):"),
+    ("logwriter.py", "        self._queue = SimpleQueue()", "        self._queue = queue")]})
+B("file-destination-posonly", ["*"], [("_output.py", "    def __call__(self, message):\n        \"\"\"\n        @param message: A message dictionary.", "    def __call__(self, message, /):\n        \"\"\"\n        @param message: A message dictionary.")])
+M("generator-throw-by-method-value", ["C15", "C05", "C04"], "_generators.py", "                        value_out = gen.throw(*value_in)", "                        value_out = (lambda m, v: m(*v))(gen.throw, value_in)", "C15.inside")
 
 VARIANTS = V
